@@ -59,6 +59,7 @@ import PyndlProofs.Dict
 import PyndlProofs.NdlContinue
 import PyndlProofs.DictArray
 import PyndlProofs.Chain
+import PyndlProofs.NdlCall
 import PyndlModel.Generated
 
 namespace Pyndl.C03
@@ -129,6 +130,41 @@ theorem ndl_continue (cfg : NdlCfg) (hper : 2 ≤ cfg.perFile) (hjob : 1 ≤ cfg
     ∃ r, ndlModel Generated.pyMagic Generated.pyVersion cfg alpha β₁ β₂ lam (some w) es = .ok (r, es.length) ∧
       ∀ o c, r.get o c = rwLearn (fun _ => alpha) β₁ β₂ lam (fun o c => w.get o c) es' o c :=
   ndlModel_continue_eq_spec _ _ (by decide) (by decide) cfg hper hjob alpha β₁ β₂ lam w es es' hp hfit
+
+/-- the same for the CALL (`ndlCall` = `ndlModel` plus the behaviour on zero
+    events, the function the correspondence run evaluates): every NON-EMPTY part -/
+theorem ndl_call_continue (cfg : NdlCfg) (hper : 2 ≤ cfg.perFile) (hjob : 1 ≤ cfg.perJob) (alpha β₁ β₂ lam : R)
+    (w : LW R) (es es' : List (Event String String)) (hne : es ≠ [])
+    (hp : applyPolicyAll cfg.policy es = some es') (hfit : Fits32With w es) :
+    ∃ r, ndlCall Generated.pyMagic Generated.pyVersion cfg alpha β₁ β₂ lam (some w) es = .ok (r, es.length) ∧
+      ∀ o c, r.get o c = rwLearn (fun _ => alpha) β₁ β₂ lam (fun o c => w.get o c) es' o c := by
+  rw [ndlCall_nonempty _ _ _ _ _ _ _ _ _ hne]
+  exact ndl_continue cfg hper hjob alpha β₁ β₂ lam w es es' hp hfit
+
+/-- **an EMPTY part is not a no-op for `ndl.ndl`** (outside the property's splits,
+    which have non-empty parts; recorded because `dict_ndl` does return its input
+    there): continuing from weights with at least one outcome on an event file
+    with zero events raises `IOError` with either method. -/
+theorem ndl_call_empty_part_raises (cfg : NdlCfg) (hper : 2 ≤ cfg.perFile) (hjob : 1 ≤ cfg.perJob)
+    (alpha β₁ β₂ lam : R) (w : LW R) (hw : w.outcomes ≠ []) (hfit : Fits32With w []) :
+    ndlCall Generated.pyMagic Generated.pyVersion cfg alpha β₁ β₂ lam (some w) [] = .error .io := by
+  obtain ⟨r, hr, _⟩ := ndl_continue cfg hper hjob alpha β₁ β₂ lam w [] [] (by cases cfg.policy <;> rfl) hfit
+  have hout : r.outcomes = w.outcomes := by
+    have := ndlModel_labels Generated.pyMagic Generated.pyVersion cfg alpha β₁ β₂ lam (some w) [] r 0 hr
+    have h2 := this.2
+    simp only [countNames] at h2
+    rw [h2]
+    show w.outcomes ++ List.filter _ (dedupKeepFirst []) = w.outcomes
+    simp [dedupKeepFirst]
+  cases hm : cfg.method with
+  | openmp => exact ndlCall_empty_openmp _ _ cfg hm alpha β₁ β₂ lam (some w) _ hr
+  | threading =>
+    rw [ndlCall_empty_threading _ _ cfg hm alpha β₁ β₂ lam (some w) r _ hr]
+    have : r.outcomes.isEmpty = false := by
+      rw [hout]; cases h : w.outcomes with
+      | nil => exact absurd h hw
+      | cons _ _ => rfl
+    simp [this]
 
 /-- **two chained `ndl.ndl` calls = one call over the concatenation** (possibly
     different methods, thread counts and chunk sizes in the two calls, later
